@@ -225,7 +225,7 @@ pub fn drive(args: &[String]) {
         } else {
             // gap clause: small k, scripted unit values a/64 (ties excluded by TLC: they cannot occur for these a with i+1 <= 16)
             let k = 1 + rng.below(3);
-            let n = 4 * k + 6 + rng.below(4);
+            let n = 4 * k + 12 + rng.below(6);
             for i in 0..n {
                 let script: Vec<Value> = if i < k {
                     vec![]
@@ -375,8 +375,14 @@ pub fn freq(args: &[String]) {
         grid.extend([(1, 3), (2, 5), (3, 4), (3, 12), (4, 17), (8, 9), (8, 32), (8, 33), (8, 48), (32, 129), (32, 160), (32, 192), (64, 65), (64, 256), (100, 401), (100, 600)]);
     }
     let mut tid = 0u64;
+    let base_runs = runs;
+    let mut total_runs = 0u64;
     for (k, n) in grid {
         tid += 1;
+        // small k: the switch item's probability is off by a relative 1/(4k) under realistic slips, which takes many more
+        // runs to separate from noise at 6 sigma
+        let runs = if k <= 5 { 6 * base_runs } else { base_runs };
+        total_runs += runs;
         note_call(json!({"rsfreq": {"k": k, "n": n}}));
         let r = guarded(|| {
             let mut counts = vec![0u64; n];
@@ -402,5 +408,5 @@ pub fn freq(args: &[String]) {
         }
     }
     out.flush();
-    println!("STATS {}", json!({"cases": tid, "runs": runs}));
+    println!("STATS {}", json!({"cases": tid, "runs": base_runs, "total_runs": total_runs}));
 }
